@@ -18,7 +18,7 @@ pub fn property() -> Property {
     Property {
         id: "C16",
         level: "exploration",
-        rule: "Random operation sequences (<= 25 ops, values from small domains so that collisions are frequent) over {new session, clone session, every session setter, header/header_append with colliding names in mixed case, create a builder with each method, every builder setter, headers_mut, prepare, send} are executed in lock-step on the real objects and on a value model in which a builder copies its session's values at creation and nothing flows back or sideways. Header values include obs-text that is not UTF-8 and non-ASCII UTF-8. After EVERY operation the guarded settings snapshot (hook H4) of EVERY live session/builder must equal its model; every send is observed on the wire with one probe: header probe (all header fields sent vs model incl. Accept/User-Agent defaults and Accept-Encoding iff compression allowed), redirect probe (endless 302: number of requests == max_redirections+1, or 1 when following is off), (every third header probe is preceded by a send of an unrelated session that fails while its request is being written: nothing of it may appear on the probed request's connection), header-limit probe (exactly max_headers fields accepted, max_headers+1 refused), proxy probe (address dialled), plus the timeouts / TLS flags / root count handed to the connector (DialRequest). 'env-at-creation': the proxy variables are changed between the creation of a session / request / PreparedRequest and its send (3 x 3 environments x 5 kinds of object): the route is the one of the environment at creation. A set/append that is refused (line break in the value) leaves the session unchanged. In the threads generator the objects are then distributed over 2..8 barrier-started threads that keep operating on their own clones and sending concurrently; each thread checks its objects against its own copy of the model and the parent checks that the originals did not change. Non-trivial: sequence contains >= 1 send and >= 2 live objects; distinct = hash(op sequence).",
+        rule: "Random operation sequences (<= 25 ops, values from small domains so that collisions are frequent) over {new session, clone session, every session setter, header/header_append with colliding names in mixed case, create a builder with each method, every builder setter, headers_mut, prepare, send} are executed in lock-step on the real objects and on a value model in which a builder copies its session's values at creation and nothing flows back or sideways. Header values include obs-text that is not UTF-8 and non-ASCII UTF-8. After EVERY operation the guarded settings snapshot (hook H4) of EVERY live session/builder must equal its model; every send is observed on the wire with one probe: header probe (all header fields sent vs model incl. Accept/User-Agent defaults and Accept-Encoding iff compression allowed), redirect probe (endless 302: number of requests == max_redirections+1, or 1 when following is off), (every third header probe is preceded by a send of an unrelated session that fails while its request is being written: nothing of it may appear on the probed request's connection), header-limit probe (exactly max_headers fields accepted, max_headers+1 refused), proxy probe (address dialled), plus the timeouts / TLS flags / root count handed to the connector (DialRequest). 'env-at-creation': the proxy variables are changed between the creation of a session / request / PreparedRequest and its send (3 x 3 environments x 7 kinds of object, Session::default() among them): the route is the one of the environment at creation. A set/append that is refused (line break in the value) leaves the session unchanged. In the threads generator the objects are then distributed over 2..8 barrier-started threads that keep operating on their own clones and sending concurrently; each thread checks its objects against its own copy of the model and the parent checks that the originals did not change. Non-trivial: sequence contains >= 1 send and >= 2 live objects; distinct = hash(op sequence).",
         assumptions: &["root certificates are counted, not compared", "thread schedules are whatever the OS produces (Miri adds randomised schedules in the thorough tier when available)"],
         min_nontrivial: |t| t.pick(2_000, 60_000),
         gens,
@@ -31,7 +31,7 @@ fn gens(tier: Tier) -> Vec<Gen> {
     vec![
         Gen { name: "sequences", count: tier.pick(5_000, 250_000), exhaustive: false, run: run_sequence },
         Gen { name: "threads", count: tier.pick(300, 8_000), exhaustive: false, run: run_threads },
-        Gen { name: "env-at-creation", count: (3 * 3 * 5) as u64, exhaustive: true, run: run_env_at_creation },
+        Gen { name: "env-at-creation", count: (3 * 3 * 7) as u64, exhaustive: true, run: run_env_at_creation },
     ]
 }
 
@@ -525,7 +525,7 @@ fn run_env_at_creation(ctx: &mut Ctx, _rng: &mut Rng, index: u64) {
     };
     let e1 = index % 3;
     let e2 = (index / 3) % 3;
-    let kind = (index / 9) % 5;
+    let kind = (index / 9) % 7;
     if e1 == e2 {
         ctx.gray();
         return;
@@ -536,6 +536,8 @@ fn run_env_at_creation(ctx: &mut Ctx, _rng: &mut Rng, index: u64) {
     let s_old = Session::new();
     let rb_old = attohttpc::get(url);
     let prepared_old = attohttpc::post(url).text("x").prepare();
+    // (a session obtained through the Default trait is a session like any other)
+    let s_default_old = Session::default();
     set_env(e2);
     let mut sends: Vec<(&str, u64, Box<dyn FnOnce() -> bool>)> = Vec::new();
     match kind {
@@ -549,7 +551,9 @@ fn run_env_at_creation(ctx: &mut Ctx, _rng: &mut Rng, index: u64) {
             let mut p = prepared_old;
             sends.push(("PreparedRequest prepared before the change", e1, Box::new(move || p.send().is_ok())));
         }
-        _ => sends.push(("request created after the change", e2, Box::new(move || attohttpc::get(url).send().is_ok()))),
+        4 => sends.push(("request created after the change", e2, Box::new(move || attohttpc::get(url).send().is_ok()))),
+        5 => sends.push(("request from a Session::default() created before the change", e1, Box::new(move || s_default_old.get(url).send().is_ok()))),
+        _ => sends.push(("request from a Session::default() created after the change", e2, Box::new(move || Session::default().get(url).send().is_ok()))),
     }
     for (what, want_env, send) in sends {
         let world = World::install(|_, _, _| Answer::Script(vec![Step::Data(c07::OK_RESPONSE.to_vec())], WriteFaults::default()));
